@@ -121,6 +121,7 @@ func plans(id, tier string) (Plan, bool) {
 			{Pkg: pkgV2, Harness: "c05_match", Params: "mode=notices", Shards: pick(4, 8)},
 			{Pkg: pkgV2, Harness: "c05_match", Params: "mode=longwords", Shards: 16},
 			{Pkg: pkgV2, Harness: "c05_match", Params: "mode=prefixquote", Shards: 16},
+			{Pkg: pkgV2, Harness: "c05_match", Params: "mode=quotedwords", Shards: 4},
 		}
 		return Plan{Level: "exploration", Jobs: jobs}, true
 	case "C06":
@@ -169,6 +170,8 @@ func plans(id, tier string) (Plan, bool) {
 			{Pkg: pkgV2, Harness: "c08_faults", Shards: pick(6, 16)},
 			{Pkg: pkgV2, Harness: "c08_stutter", Shards: pick(4, 16)},
 			{Pkg: pkgV2, Harness: "c08_short", Shards: pick(4, 16)},
+			// histories with AddContent between queries: MatchFrom and Match of one classifier must still agree
+			{Pkg: pkgV2, Harness: "c04_replace", Shards: pick(4, 16)},
 			// the same with every trace phase switched on (diagnostic code runs on the same paths)
 			{Pkg: pkgV2, Harness: "c08_faults", Params: "trace=all", Shards: pick(6, 16)},
 			{Pkg: pkgV2, Harness: "c08_chunks", Params: map[bool]string{false: "inputs=2;deviations=1;trace=all", true: "inputs=6;deviations=2;trace=all"}[th], Shards: pick(4, 16)},
@@ -198,6 +201,9 @@ func plans(id, tier string) (Plan, bool) {
 		// two long inputs of equal length with a common 5 KB head and different documents behind it
 		jobs = append(jobs, Job{Pkg: pkgV2, Harness: "c09_sched", Instr: "v2coarse", Params: fmt.Sprintf("scenario=11;threads=2;api=match;policy=delay;budget=%d", pick(1, 2)), Shards: pick(4, 8)})
 		jobs = append(jobs, Job{Pkg: pkgV2, Harness: "c09_sched", Instr: "v2coarse", Params: "scenario=11;threads=2;policy=delay;budget=1", Shards: pick(2, 8)})
+		// inputs with letters and quotes outside ASCII whose code points agree in their low byte
+		jobs = append(jobs, Job{Pkg: pkgV2, Harness: "c09_sched", Instr: "v2access", Params: "scenario=15;threads=2;api=match;policy=delay;budget=0;maxsite=100000;monitor=access", Shards: 1})
+		jobs = append(jobs, Job{Pkg: pkgV2, Harness: "c09_sched", Instr: "v2coarse", Params: "scenario=15;threads=2;policy=delay;budget=1", Shards: 4})
 		// two calls on a 4 300-word document (sizes at which a library may take other paths or ration resources)
 		jobs = append(jobs, Job{Pkg: pkgV2, Harness: "c09_sched", Instr: "v2coarse", Params: "scenario=13;threads=2;api=match;policy=delay;budget=1", Shards: pick(4, 8)})
 		jobs = append(jobs, Job{Pkg: pkgV2, Harness: "c09_sched", Instr: "v2coarse", Params: "scenario=14;threads=2;policy=delay;budget=1", Shards: pick(2, 8)})
